@@ -336,10 +336,10 @@ def compare_graph(doc: dict, root, cfg: dict) -> None:
                         raise Mismatch('value', f'{apath}[{n}]: {vt} value {g!r}, expected {w!r}'
                                                 + ('' if not text else ' (tolerance 5e-7)'))
                 elif w == 'N':
-                    if not (isinstance(g, Element) and g.is_null):
+                    if g is not NULL:        # (own test: the NULL singleton, not the library's is_null predicate)
                         raise Mismatch('null', f'{apath}[{n}]: expected NULL, got {g!r}')
                 elif isinstance(w, str):
-                    if not (isinstance(g, Element) and g.is_stub):
+                    if not (isinstance(g, StubElement) and g is not NULL):
                         raise Mismatch('stub', f'{apath}[{n}]: expected a stub, got {g!r}')
                     if g.uuid != SU(int(w[1:])):
                         raise Mismatch('stub_uuid', f'{apath}[{n}]: stub UUID {g.uuid}, expected {SU(int(w[1:]))}')
